@@ -68,6 +68,15 @@ class MatchFnClosures(Edit):
     pass
 
 
+class Wrap(Edit):
+    """a rewrite of a block-carrying construct whose body is edited by OTHER edits: `pattern` (must end with the `{` that opens the body)
+    is replaced by `open_text`; the matching `}` together with the next `close_tail` tokens (e.g. `)` `;` of `.for_each(|x| { .. });`) is
+    replaced by `close_text`. The body in between is left to the other edits."""
+
+    def __init__(self, rule, pattern, open_text, close_text, close_tail=0, occ=1, why=''):
+        self.rule, self.pattern, self.open_text, self.close_text, self.close_tail, self.occ, self.why = rule, pattern, open_text, close_text, close_tail, occ, why
+
+
 class Tail(Edit):
     """rule E6: `e` (tail expression of the function body) -> `let __res = e; <ghost> __res`"""
 
@@ -623,6 +632,15 @@ class Extractor:
                         rep = self.subst(src, e.template, caps)
                         edits.append((toks[ms].s, toks[me - 1].e, rep, e.rule))
                         self.log(e.rule, what, text[toks[ms].s:toks[me - 1].e], rep + ('   // ' + e.why if e.why else ''))
+                elif isinstance(e, Wrap):
+                    ms, me, caps = self.locate(src, body_lo, body_hi, e.pattern, e.occ, what)
+                    if toks[me - 1].text != '{':
+                        raise ExtractError('Wrap pattern must end with `{` in %s' % what)
+                    close = src.pair[me - 1]
+                    last = close + e.close_tail
+                    edits.append((toks[ms].s, toks[me - 1].e, self.subst(src, e.open_text, caps), e.rule))
+                    edits.append((toks[close].s, toks[last].e, self.subst(src, e.close_text, caps), e.rule + ':close'))
+                    self.log(e.rule, what, text[toks[ms].s:toks[me - 1].e] + ' .. ' + text[toks[close].s:toks[last].e], e.open_text.strip()[:200] + ' .. ' + e.close_text.strip()[:200] + ('   // ' + e.why if e.why else ''))
                 elif isinstance(e, MatchFnClosures):
                     pass  # applied to the assembled text below
                 elif isinstance(e, Tail):
